@@ -40,7 +40,7 @@ CID = {c: i for i, c in enumerate(CLASSES)}
 
 def bounds(tier):
     return {"quick": "len(bounds) in 0..3; len(lower),len(upper),len(precision) in 0..3 (all 64 combos); every element a free Real; grids of length <= 4",
-            "thorough": "same shapes; grids of length <= 7; plus permuted simultaneous-error shapes"}[tier]
+            "thorough": "same shapes; grids of length <= 12 (<= 4 per axis with three parameters)"}[tier]
 
 
 def ref_concrete(bounds_, prec):
@@ -221,7 +221,7 @@ def case_shape(nb, nl, nu, npr, maxlen):
 
 
 def cases(tier, seed):
-    maxlen = 4 if tier == "quick" else 7
+    maxlen = 4 if tier == "quick" else 12
     cs = []
     for nb in (0, 1, 3):
         cs.append(case_shape(nb, 1, 1, 1, maxlen))
